@@ -13,7 +13,7 @@ class P(vlib.Prop):
     coq_targets = ["C05/Properties.vo", "C05/Witness.vo", "C05/Harness.vo"]
     properties_module = "C05.Properties"
     properties_file = "C05/Properties.v"
-    instance_obligations = []
+    instance_obligations = []  # the tie obligations are theorems tie_* of Properties.v (lemmas of C05/Tie.v)
     harness_module = "C05.Harness"
     case_type = "wire_case"
     shard = 60
@@ -23,7 +23,7 @@ class P(vlib.Prop):
     ]
     rule = ("retry: generated scenarios = (back-off configuration, per-attempt timeout, signal, payload ids, caller deadline, "
             "cancel instant, shutdown instant, script of backend outcomes {success, transient, permanent, throttle d, partial "
-            "failure with remainder (own or foreign signal), shutdown-classified, fmt-wrapped, chains of these, and COMBINED errors (errors.Join / fmt.Errorf with several %w / multierr.Combine) with such members at any position, nested}) run on the REAL "
+            "failure with remainder (own or foreign signal), shutdown-classified, fmt-wrapped, chains of these, COMBINED errors (errors.Join / fmt.Errorf with several %w / multierr.Combine) with such members at any position, nested, and error types with their own As/Is methods claiming to be permanent / shutdown / throttle / partial}) run on the REAL "
             "chain obsReport -> retrySender -> timeoutSender -> exporter function built by internal.NewBaseExporter with real "
             "logs/traces/metrics requests.  Family 1: randomization_factor 0, deterministic; every inequality the code evaluates is "
             ">= 60 ms away from equality (margin_ms) and every wait >= 15 ms (S4 exclusion); compared exactly with the model: "
@@ -32,12 +32,13 @@ class P(vlib.Prop):
             "envelope makes the case fail); shutdown/cancel triggered from inside attempt k.  Family 3: initial_interval 0 with "
             "Shutdown completed inside attempt 0 (regression stream for the repaired S4, fix 9628cae8b): no attempt may start after "
             "Shutdown returned and the error must be shutdown-classified; compared exactly.  Family 4: groups of 2-6 requests through ONE exporter — one after another, concurrently, and concurrently "
-            "with Shutdown while >= 2 of them wait in back-off, others are mid-attempt, are sent afterwards or finished before; every "
+            "with Shutdown while >= 2 of them wait in back-off, others are mid-attempt, are sent afterwards or finished before; requests may carry their own far or cutting deadline or be cancelled from inside an attempt; every "
             "request is its own case (fresh back-off and budget per request, shutdown reaches every request).  Kind 1: BackOffConfig.Validate on "
             "generated configurations vs the translated Coq function.  A case is non-trivial when it has >= 2 attempts or a "
             "non-nil final error (retry) / a rejected configuration (validate); distinct = distinct case terms.")
     trusted_base = [
         "Coq 8.16.1 kernel + vm_compute (coqc); no axioms (Print Assumptions: closed under the global context)",
+        "translator T1 (tools/go2coq, props/C05/t1_spec.json): timeout validation/default, IsPermanent, method sets of the wrapper and request types, backoff.Stop; tied to the model by the obligations of coq/C05/Tie.v",
         "props/C05/validate2coq.py (hand translator, float64 fields as rationals; T1 has no float64): re-reads "
         "config/configretry/backoff.go on every run; tied additionally by the kind-1 correspondence cases",
         "Go harness harness/C05/retry_test.go + go test -overlay; Go toolchain; zap observer (the chosen delay is read from retrySender's log line)",
@@ -46,7 +47,7 @@ class P(vlib.Prop):
     ]
     assumptions = [
         "float64 arithmetic of backoff/v5 is modelled by exact rational arithmetic (generated multipliers / factors are dyadic or small rationals for which both agree on nanosecond integers)",
-        "errors are trees of single wrappers and combinations (errors.Join, several %w, multierr); errors.As = first node of the target type in depth-first pre-order; error types with their own As/Is methods are not modelled",
+        "errors are trees of single wrappers and combinations (errors.Join, several %w, multierr); errors.As = first node of the target type in depth-first pre-order; error types with their own As/Is methods are ECustom nodes (the As method's claims are the node's layers; Is is never consulted)",
         "a select whose branches are ready at the same instant is resolved by an oracle order; the theorem about cancellation assumes distinct instants (shutdown no longer does); the correspondence keeps instants >= 60 ms apart and waits >= 15 ms (family 1) / >= 8 ms (family 2); a timer/stop tie (initial_interval 0 racing stopCh, formerly S4) is exercised by family 3 and is deterministic since the post-timer re-check of stopCh",
         "time spent by retrySender between the return of an attempt and time.Now() is negligible (harness: bounded by the 60 ms margin; runs with timer jitter > 25 ms are repeated)",
     ]
@@ -59,3 +60,5 @@ class P(vlib.Prop):
         except validate2coq.Fail as e:
             raise vlib.Broken("translator (validate2coq) cannot translate BackOffConfig.Validate", str(e))
         ctx.translator_manifests.append(m)
+        # T1: loop-free pieces of the retry path (obligations: coq/C05/Tie.v)
+        vlib.go2coq(ctx, "exporter", os.path.join(HERE, "t1_spec.json"), "C05RetryGo")
